@@ -2678,6 +2678,161 @@ struct AmpDriver : DriverBase<AmpDriver> {
     }
 };
 
+// ================================================================================================ optional<bool>
+// bool is the value type for which "is constructible from an optional" is true (explicit operator bool): the converting
+// constructors must not take over from the copy / move constructors, whatever the value category of the source.
+struct OptBoolDriver : DriverBase<OptBoolDriver> {
+    using Base = DriverBase<OptBoolDriver>;
+    using O    = etl::optional<bool>;
+    using M    = std::optional<bool>;
+
+    O* obj[3] = {nullptr, nullptr, nullptr};
+    M model[3];
+
+    OptBoolDriver(Plan const& p, Ctx& c)
+        : Base(p, c)
+    {
+    }
+
+    static auto code(M const& m) -> int { return m.has_value() ? (*m ? 1 : 0) : -1; }
+
+    void resync(int s) { model[s] = obj[s]->has_value() ? M(**obj[s]) : M(); }
+
+    auto check_state(int s, char const* prop, char const* prefix) -> bool
+    {
+        int got = -2;
+        observe("optional<bool>", [&] {
+            O const& c = *obj[s];
+            got        = c.has_value() ? (*c ? 1 : 0) : -1;
+            if (c.has_value() != static_cast<bool>(c)) {
+                got = -3;
+            }
+        });
+        if (got != code(model[s])) {
+            ctx.violation(prop, std::string(prefix) + ":state", "optional<bool> holds " + std::to_string(got) + ", std::optional<bool> holds " + std::to_string(code(model[s])) + " (-1 = empty)");
+            return false;
+        }
+        return true;
+    }
+
+    void run()
+    {
+        for (int s = 0; s < pool; ++s) {
+            obj[s] = new (arena_prepare(s, sizeof(O), plan.cfg, static_cast<uint64_t>(s) + 1, alignof(O))) O{};
+        }
+        for (size_t i = 0; i < plan.steps.size() && !ctx.stop; ++i) {
+            Step const& st = plan.steps[i];
+            ctx.step       = static_cast<int>(i);
+            g_crash.step   = ctx.step;
+            int const a    = static_cast<int>(st.a % static_cast<uint32_t>(pool));
+            int const b    = static_cast<int>(st.b % static_cast<uint32_t>(pool));
+            char const* name = ops()[static_cast<size_t>(st.op)].name;
+            std::string const op = name;
+            begin_op(name, a);
+            ctx.log.kv("b", b);
+            bool const val = st.v[0] % 2 != 0;
+            O& v = *obj[a];
+            if (op == "set") {
+                if (call(a, false, false, [&] {
+                        if (st.k[0] % 2 == 0) {
+                            v = val;
+                        } else {
+                            v.emplace(val);
+                        }
+                    })) {
+                    model[a] = val;
+                    ++ctx.stateChanging;
+                }
+            } else if (op == "reset") {
+                if (call(a, false, false, [&] { v.reset(); })) {
+                    model[a].reset();
+                    ++ctx.stateChanging;
+                    ++ctx.boundaryEvents;
+                }
+            } else if (op == "assign") {
+                if (call(a, false, false, [&] {
+                        if (st.k[0] % 2 == 0) {
+                            v = *obj[b]; // from a non-const lvalue
+                        } else {
+                            v = static_cast<O const&>(*obj[b]);
+                        }
+                    })) {
+                    if (a != b) {
+                        model[a] = model[b];
+                    }
+                    ++ctx.stateChanging;
+                }
+            } else if (op == "rebuild_from" && a != b) {
+                // destroy a, then construct it from b in one of the direct-initialisation forms
+                int const form = static_cast<int>(st.k[0] % 5);
+                ctx.log.kv("form", form);
+                guarded(true, [&] { v.~O(); });
+                arena_retire(a);
+                void* mem = arena_prepare(a, sizeof(O), plan.cfg, static_cast<uint64_t>(ctx.step) + 7, alignof(O));
+                O* made   = nullptr;
+                bool ok   = call(-1, false, false, [&] {
+                    O& src = *obj[b];
+                    switch (form) {
+                    case 0: made = new (mem) O(src); break;                       // non-const lvalue, parentheses
+                    case 1: made = new (mem) O{src}; break;                       // non-const lvalue, braces
+                    case 2: made = new (mem) O(static_cast<O const&>(src)); break; // const lvalue
+                    case 3: made = new (mem) O(O(src)); break;                    // prvalue
+                    default: {
+                        O tmp(src);
+                        made = new (mem) O(static_cast<O&&>(tmp)); // xvalue
+                        break;
+                    }
+                    }
+                });
+                if (!ok) {
+                    ctx.stop = true;
+                    break;
+                }
+                obj[a]   = made;
+                model[a] = model[b];
+                ++ctx.stateChanging;
+                ++ctx.boundaryEvents;
+            } else if (op == "swap") {
+                if (call(a, false, false, [&] { v.swap(*obj[b]); })) {
+                    if (a != b) {
+                        std::swap(model[a], model[b]);
+                    }
+                    ++ctx.stateChanging;
+                }
+            } else {
+                skip();
+            }
+            uint64_t sh = hstr(plan.scenario.c_str());
+            for (int s = 0; s < pool; ++s) {
+                if (!check_state(s, "C07", "diff:optional-bool")) {
+                    resync(s);
+                }
+                if (!arena_guards_ok(s)) {
+                    ctx.violation("C02", "memory:guard-damaged", "guard bytes around the optional were overwritten");
+                    arena_guards_repair(s);
+                }
+                ctx.log.i(code(model[s]));
+                sh = mix64(sh ^ static_cast<uint64_t>(code(model[s]) + 2) ^ (static_cast<uint64_t>(s) << 56));
+            }
+            if (g_counting) {
+                states().insert(sh);
+                transitions().insert(mix64(sh ^ hstr(ctx.op)));
+            }
+            ctx.log.nl();
+        }
+        for (int s = 0; s < pool; ++s) {
+            guarded(true, [&] { obj[s]->~O(); });
+            arena_retire(s);
+        }
+    }
+
+    static auto ops() -> std::vector<OpDef> const&
+    {
+        static std::vector<OpDef> const o = {{"set", 8}, {"reset", 4}, {"assign", 5}, {"rebuild_from", 8}, {"swap", 3}};
+        return o;
+    }
+};
+
 } // namespace
 
 void register_ovx_0();
@@ -2744,6 +2899,19 @@ void register_ovx_2()
         sc.maxSteps = 30;
         sc.run      = [](Plan const& p, Ctx& c) {
             AmpDriver d(p, c);
+            d.run();
+        };
+        registry().push_back(std::move(sc));
+    }
+    {
+        Scenario sc;
+        sc.family   = "ovx";
+        sc.name     = "optional<bool>";
+        sc.ops      = OptBoolDriver::ops();
+        sc.props    = {"C07", "C02"};
+        sc.maxSteps = 30;
+        sc.run      = [](Plan const& p, Ctx& c) {
+            OptBoolDriver d(p, c);
             d.run();
         };
         registry().push_back(std::move(sc));
